@@ -637,16 +637,42 @@ pub fn run_loopback(ctx: Ctx) -> Report {
         if !ok_socks {
             rep.violate("robustness", "socks5_listener", "well_formed_request_fails_after_hostile_input", "a well-formed CONNECT was not served after the hostile connections, with six stalled connections still open".to_string(), json!({"kind": "c20-listeners"}));
         }
-        let ok_http = async {
-            let mut s = TcpStream::connect(&http).await.ok()?;
-            s.write_all(format!("CONNECT 127.33.0.3:{tport} HTTP/1.1\r\nHost: x\r\n\r\n").as_bytes()).await.ok()?;
-            let mut b = [0u8; 12];
-            tokio::time::timeout(Duration::from_secs(10), s.read_exact(&mut b)).await.ok()?.ok()?;
-            Some(b.starts_with(b"HTTP/1.1 200"))
+        // well-formed CONNECTs in several deliveries: whole, cut at each point inside the header terminator, and with
+        // heads whose terminator straddles the listener's read sizes; each must be answered, none may hang
+        let mut variants: Vec<(String, Vec<u8>, Vec<usize>)> = Vec::new();
+        let plain = format!("CONNECT 127.33.0.3:{tport} HTTP/1.1\r\nHost: x\r\n\r\n").into_bytes();
+        variants.push(("whole".into(), plain.clone(), vec![]));
+        for back in 1..=3usize {
+            variants.push((format!("cut {back} byte(s) before the end of the terminator"), plain.clone(), vec![plain.len() - back]));
         }
-        .await;
-        if ok_http != Some(true) {
-            rep.violate("robustness", "http_listener", "well_formed_request_fails_after_hostile_input", "a well-formed CONNECT was not served after the hostile connections, with six stalled connections still open".to_string(), json!({"kind": "c20-listeners"}));
+        for total in [1022usize, 1023, 1024, 1025, 1026, 1027, 2049, 2050, 4097, 8193] {
+            let base = format!("CONNECT 127.33.0.3:{tport} HTTP/1.1\r\nHost: x\r\nX-Fill: ");
+            let fill = total.saturating_sub(base.len() + 4);
+            let mut v = base.into_bytes();
+            v.extend(std::iter::repeat_n(b'f', fill));
+            v.extend_from_slice(b"\r\n\r\n");
+            variants.push((format!("head of {} bytes in one piece", v.len()), v, vec![]));
+        }
+        for (what, bytes, cuts) in variants {
+            let ok_http = async {
+                let mut s = TcpStream::connect(&http).await.ok()?;
+                let _ = s.set_nodelay(true);
+                let mut prev = 0;
+                for c in cuts.iter().copied().chain(std::iter::once(bytes.len())) {
+                    s.write_all(&bytes[prev..c]).await.ok()?;
+                    s.flush().await.ok()?;
+                    prev = c;
+                    tokio::time::sleep(Duration::from_millis(30)).await;
+                }
+                let mut b = [0u8; 12];
+                tokio::time::timeout(Duration::from_secs(10), s.read_exact(&mut b)).await.ok()?.ok()?;
+                Some(b.starts_with(b"HTTP/1.1 200"))
+            }
+            .await;
+            rep.add("well_formed_http_requests_after_hostile_input", 1);
+            if ok_http != Some(true) {
+                rep.violate("robustness", "http_listener", "well_formed_request_fails_after_hostile_input", format!("a well-formed CONNECT ({what}) was not answered within 10 s after the hostile connections, with six stalled connections still open"), json!({"kind": "c20-listeners", "delivery": what}));
+            }
         }
         drop(held);
         tokio::time::sleep(Duration::from_secs(3)).await;
